@@ -522,6 +522,7 @@ pub fn run_case(sc: &Scenario, mode: &Mode) -> CaseOut {
         if res.noise_hits > 0 { out.count("evaluations_with_textual_noise_judged_unaltered"); }
         if res.engine_error.is_some() { out.count("evaluations_ending_in_engine_error"); }
         out.add("hook_log_gaps_resynchronised", res.hook_log_gaps);
+        out.add("evaluations_through_the_crates_StrategyForTesting", res.real_strategy as usize);
         out.add("pending_signal_sightings", res.pending_signal_sightings);
         out.add("probes", res.probes_done);
         out.add("comparisons", res.comparisons);
